@@ -59,6 +59,8 @@ def child_shapes(cname: str, nm: Namer, tier: str, rich: bool) -> list:
     ns = (1, 2, 3, 4) if tier == "quick" else (1, 2, 3, 4, 5, 6)
     if not rich:
         ns = (2, 3)
+    else:
+        ns = ns + (3.0,)
     if cname == "Variable":
         return [nm.var()]
     if cname == "Constant":
@@ -89,7 +91,8 @@ def rule_inputs(model: Model, tier: str):
     combinations, every arity/position inside n-ary nodes up to 3."""
     names = [c.name for c in model.concrete_expression_classes() if c.name in spec.ALL_CLASSES]
     out = []
-    ns_self = (1, 2, 3, 4, 5, 6) if tier == "quick" else (1, 2, 3, 4, 5, 6, 8, 9)
+    # (integral floats are accepted spellings of n)
+    ns_self = (1, 2, 3, 4, 5, 6, 4.0, 5.0) if tier == "quick" else (1, 2, 3, 4, 5, 6, 8, 9, 4.0, 5.0, 6.0)
     for k in names:
         if k in spec.LEAF:
             continue
@@ -215,13 +218,25 @@ def deep_child_shapes(model: Model, cname: str, kinds: list, nm: "Namer", tier: 
     elif cname in spec.NARY:
         out = [(cname, [g, nm.var()]) for g in subs] + [(cname, [nm.var(), g]) for g in subs] + \
               [(cname, [g]) for g in subs]
+        # every child drawn from one inspected class (patterns of the form all(isinstance(c, K) ...))
+        for gk in kinds:
+            if gk in spec.LEAF:
+                continue
+            first = child_shapes(gk, nm, tier, False)[:2]
+            twin = child_shapes(gk, nm, tier, False)[:2]
+            for s1, s2 in zip(first, twin):
+                out.append((cname, [s1, s2]))
     return out
 
 
 def variable_free_inputs(model: Model):
     """Variable-free sub-trees for the constant-folding path, including undefined ones."""
     bad = [("Reciprocal", ("Constant", 0)), ("Logarithm", ("Constant", -1), E), ("NthRoot", ("Constant", -4), 2),
-           ("Power", ("Constant", 0), ("Constant", 2))]
+           ("Power", ("Constant", 0), ("Constant", 2)),
+           # undefined as written, but with a rewrite rule that applies to them
+           ("NthPower", ("NthRoot", ("Constant", -4), 2), 2), ("Reciprocal", ("Reciprocal", ("Constant", 0))),
+           ("Multiply", [("Constant", 0), ("Logarithm", ("Constant", -1), E)]),
+           ("Negation", ("Negation", ("Logarithm", ("Constant", 0), 2)))]
     good = [("Reciprocal", ("Constant", 4)), ("Logarithm", ("Constant", 8), 2), ("NthRoot", ("Constant", 9), 2),
             ("Add", [("Constant", 1), ("Constant", 2)]), ("Sine", ("Constant", 0)),
             ("Exponential", ("Constant", -40), E), ("Reciprocal", ("NthPower", ("Constant", 10), 12)),
